@@ -9,6 +9,9 @@ OP_TIMEOUT = float(os.environ.get('VERIF_OP_TIMEOUT', '30'))
 class OpTimeout(BaseException):
     pass
 
+class StateDependent(Exception):
+    pass
+
 def _on_alarm(signum, frame):
     raise OpTimeout()
 
@@ -62,6 +65,8 @@ class PyDriver:
             return 'err Timeout'       # the call did not return: the model always answers (its loops carry fuel)
         except RecursionError:
             raise
+        except StateDependent as e:
+            return 'err StateDependent ' + str(e)
         except Exception as e:  # noqa
             return 'err ' + err_name(e)
         finally:
@@ -69,28 +74,94 @@ class PyDriver:
                 signal.setitimer(signal.ITIMER_REAL, 0)
                 signal.signal(signal.SIGALRM, old)
 
+    # -----------------------------------------------------------------------------------------------
+    # usage-pattern stress (no source hook): every op is also asked in the ways a caller may legitimately use the
+    # API over time - the same argument object reused after an in-place update, a returned list/dict/shape mutated
+    # or still held while the next call is made.  An answer that depends on any of that is reported as
+    # `err StateDependent <what>` (the model, a pure function, can never agree with it).
     def dispatch(self, t):
+        ans = self.dispatch0(t)
+        for kind, (obj, snap_fn, snap) in list(self.__dict__.setdefault('held', {}).items()):
+            try:
+                now = snap_fn(obj)
+            except Exception as e:  # noqa
+                now = 'raises ' + type(e).__name__
+            if now != snap:
+                del self.held[kind]
+                return f'err StateDependent a value returned earlier by `{kind}` changed after a later call'
+        return ans
+
+    def hold(self, kind, obj, snap_fn):
+        held = self.__dict__.setdefault('held', {})
+        if kind in held:
+            old, fn, snap = held.pop(kind)
+            if fn(old) != snap:
+                raise StateDependent(f'a value returned earlier by `{kind}` changed when `{kind}` was called again')
+        held[kind] = (obj, snap_fn, snap_fn(obj))
+
+    def twice(self, kind, fn, canon=lambda r: list(r), spoil=None):
+        """call, spoil the returned object in place, call again: both answers must be the same"""
+        r1 = fn()
+        k1 = canon(r1)
+        try:
+            if spoil is not None:
+                spoil(r1)
+            elif isinstance(r1, list):
+                r1.append(r1[0] if r1 else 0)
+                r1.reverse()
+        except Exception:  # noqa  (immutable result: nothing to spoil)
+            pass
+        try:
+            k2 = canon(fn())
+        except Exception as e:  # noqa
+            k2 = 'raises ' + type(e).__name__
+        if k2 != k1:
+            raise StateDependent(f'`{kind}` answers differently after the list it returned was modified by the caller')
+        return k1
+
+    def dispatch0(self, t):
         op = t[0]
         ser, ci, cp = self.ser, self.ci, self.cp
         if op == 'res':
             return 'ok %d' % ser.get_resolution(int(t[1]))
         if op == 'des':
-            c = ser.deserialize(int(t[1]))
-            return 'ok %d %d %d %d' % (c['origin'].id, c['segment'], c['S'], c['resolution'])
+            def spoil(c):
+                c['S'] = -7; c['segment'] = 9; c['resolution'] = 3
+            return 'ok %d %d %d %d' % self.twice('deserialize', lambda: ser.deserialize(int(t[1])),
+                                                 canon=lambda c: (c['origin'].id, c['segment'], c['S'], c['resolution']), spoil=spoil)
         if op == 'ser':
             o, sg, s, r = int(t[1]), int(t[2]), int(t[3]), int(t[4])
             from a5.core.utils import A5Cell
-            return 'ok %d' % ser.serialize(A5Cell(origin=self.org.origins[o], segment=sg, S=s, resolution=r))
+            def attempt(cell):
+                try:
+                    return 'ok %d' % ser.serialize(cell)
+                except Exception as e:  # noqa
+                    return 'err ' + err_name(e)
+            fresh = attempt(A5Cell(origin=self.org.origins[o], segment=sg, S=s, resolution=r))
+            # one record object reused across calls and updated in place, as a caller iterating over cells would do
+            rec = self.__dict__.get('_rec')
+            if rec is None:
+                rec = self._rec = A5Cell(origin=self.org.origins[0], segment=0, S=0, resolution=0)
+            prev = dict(rec)
+            attempt(rec)                                       # encode what it held
+            rec['origin'], rec['segment'], rec['S'], rec['resolution'] = self.org.origins[o], sg, s, r
+            reused = attempt(rec)
+            if (rec['origin'], rec['segment'], rec['S'], rec['resolution']) != (self.org.origins[o], sg, s, r):
+                return 'err StateDependent serialize modified the record passed to it'
+            if reused != fresh:
+                return (f'err StateDependent serialize answers `{fresh}` for a new record and `{reused}` for a record object that was '
+                        f'encoded before (holding origin={prev["origin"].id} segment={prev["segment"]} S={prev["S"]} resolution={prev["resolution"]}) and updated in place')
+            return fresh
         if op == 'children':
             r = opt(t[2])
-            res = ser.cell_to_children(int(t[1])) if r is None else ser.cell_to_children(int(t[1]), r)
+            res = self.twice('cell_to_children', lambda: ser.cell_to_children(int(t[1])) if r is None else ser.cell_to_children(int(t[1]), r))
             return fmt_list(res)
         if op == 'parent':
             r = opt(t[2])
             res = ser.cell_to_parent(int(t[1])) if r is None else ser.cell_to_parent(int(t[1]), r)
             return 'ok %d' % res
         if op == 'res0':
-            return fmt_list(ser.get_res0_cells())
+            return fmt_list(self.twice('get_res0_cells', lambda: ser.get_res0_cells()))
         if op == 'first':
             r = opt(t[2])
             b = ser.is_first_child(int(t[1])) if r is None else ser.is_first_child(int(t[1]), r)
@@ -106,14 +177,14 @@ class PyDriver:
         if op == 'compact':
             arg = [int(x) for x in t[1:]]
             keep = list(arg)
-            out = cp.compact(arg)
+            out = self.twice('compact', lambda: cp.compact(arg))
             if arg != keep:
                 return 'err ArgumentMutated'
             return fmt_list(out)
         if op == 'uncompact':
             arg = [int(x) for x in t[2:]]
             keep = list(arg)
-            out = cp.uncompact(arg, int(t[1]))
+            out = self.twice('uncompact', lambda: cp.uncompact(arg, int(t[1])))
             if arg != keep:
                 return 'err ArgumentMutated'
             return fmt_list(out)
@@ -141,7 +212,7 @@ class PyDriver:
         if op == 'c2b':
             # option glue: `-` = key omitted, `x` = no options argument at all, `none` / `auto` = the two spellings of the automatic rule
             if t[2] == 'x' and t[3] == 'x':
-                ring = self.a5.cell_to_boundary(int(t[1]))
+                ring = self.twice('cell_to_boundary', lambda: self.a5.cell_to_boundary(int(t[1])), canon=lambda r: [tuple(p) for p in r])
             else:
                 opts = {}
                 if t[2] in ('0', '1'):
@@ -152,13 +223,23 @@ class PyDriver:
                     opts['segments'] = 'auto'
                 elif t[3] not in ('-', 'x'):
                     opts['segments'] = int(t[3])
-                ring = self.a5.cell_to_boundary(int(t[1]), opts)
+                keep = dict(opts)
+                ring = self.twice('cell_to_boundary', lambda: self.a5.cell_to_boundary(int(t[1]), opts), canon=lambda r: [tuple(p) for p in r])
+                if opts != keep:
+                    return 'err StateDependent cell_to_boundary modified the options dictionary passed to it'
+                # the same options object reused for another cell (updated in place)
+                shared = self.__dict__.setdefault('_opts', {})
+                shared.clear(); shared.update(keep)
+                again = [tuple(p) for p in self.a5.cell_to_boundary(int(t[1]), shared)]
+                if again != ring or shared != keep:
+                    return 'err StateDependent cell_to_boundary answers differently for an options dictionary that was used in an earlier call'
             return 'ok %d' % len(ring) + ''.join(' %d %d' % (fbits(a), fbits(b)) for a, b in ring)
         if op == 'pent':
             from a5.core.tiling import get_pentagon_vertices
             a = self.hb.s_to_anchor(int(t[3]), int(t[1]), t[4])
             shp = get_pentagon_vertices(int(t[1]), int(t[2]), a)
             vs = list(shp.get_vertices()) + [shp.get_center()]
+            self.hold('get_pentagon_vertices', shp, lambda sh: [tuple(v) for v in sh.get_vertices()])
             return 'ok %d' % len(vs) + ''.join(' %d %d' % (fbits(x), fbits(y)) for x, y in vs)
         if op in ('dfwd', 'dinv'):
             from a5.core.cell import _dodecahedron
